@@ -50,6 +50,8 @@ class Faulty(io.BytesIO):
         if i == self.at:
             if self.mode == "raise":
                 raise OSError("injected fault")
+            if self.mode == "once":   # this one call delivers `keep` byte(s) fewer than asked; the stream goes on normally
+                return super().read(max(0, n - self.keep)) if n is not None and n > 0 else super().read(n)
             self.dead = True
             got = super().read(n)
             return got[: self.keep]
@@ -94,7 +96,7 @@ def cuts_and_faults(eng, res, L, tree, data, full, sigs, *, endian, align, compi
     # ---- stream faults at every read call
     ncalls = count_reads(T, data)
     for at in range(ncalls):
-        for mode, keep in (("short", 0), ("short", 1), ("raise", 0)):
+        for mode, keep in (("short", 0), ("short", 1), ("raise", 0), ("once", 1)):
             s = Faulty(data, at, mode, keep)
             try:
                 obj = T(s)
@@ -109,7 +111,10 @@ def cuts_and_faults(eng, res, L, tree, data, full, sigs, *, endian, align, compi
                     eng.report("the stream raised but parsing returned a value", cd, sigs)
                 elif not eofarr and not impl.same_val(full[1], got[1], ignore_union_buf=True):
                     eng.report(f"the stream ended early at read #{at} but parsing returned {str(got[1])[:200]} instead of {str(full[1])[:200]}", cd, sigs)
-            elif mode == "short" and got[1] not in ("EOFError",):
+                elif mode == "once" and not eofarr and got[2] != end:
+                    eng.report(f"read call #{at} delivered one byte fewer than asked, parsing returned the value of the complete input but left the stream "
+                               f"at {got[2]} instead of {end}: what is parsed next from this stream comes from the wrong bytes", cd, sigs)
+            elif mode in ("short", "once") and got[1] not in ("EOFError",):
                 eng.report(f"premature end at read #{at} raises {got[1]}, not EOFError", cd, sigs)
             # no residue
             again, _ = real_parse(T, data)
@@ -158,6 +163,10 @@ def run(env) -> Result:
     eng.flush()
     named_lengths(env, eng, res, mkrng(env["seed"], "c08-named-lengths"))
     run_residue(env, eng, res, mkrng(env["seed"], "c08-residue"))
+    # dynamically sized unions under cuts and faulted reads (harness/v7_c08.py)
+    from .. import v7_c08
+    v7_c08.run(env, res, lambda w, d: eng.report(w, d, []), Faulty, count_reads, impl.dc())
+    eng.flush()
     return res
 
 
